@@ -29,7 +29,7 @@ use super::{ExprType, FlagsState, GeneratorState};
 impl<'a> GeneratorState<'a> {
     // The parser lets a function name through as an identifier (it is only meaningful in a call):
     // looking it up as a variable is an error of the program, not of the compiler
-    fn variable_or_error(&self, name: &str, pos: usize) -> Result<&'a Variable, Error> {
+    pub(crate) fn variable_or_error(&self, name: &str, pos: usize) -> Result<&'a Variable, Error> {
         match self.compiler_state.variables.get(name) {
             Some(v) => Ok(v),
             None => Err(self
@@ -528,7 +528,7 @@ impl<'a> GeneratorState<'a> {
                             if let Expr::Integer(8) = *rhs2 {
                                 if let Expr::Identifier(var, sub) = *lhs2 {
                                     if let Expr::Nothing = *sub {
-                                        let v = self.compiler_state.get_variable(var.as_str());
+                                        let v = self.variable_or_error(var.as_str(), pos)?;
                                         if v.var_type == VariableType::CharPtr && v.var_const {
                                             if self.acc_in_use {
                                                 self.sasm(PHA)?;
@@ -577,7 +577,7 @@ impl<'a> GeneratorState<'a> {
                             if let Expr::Integer(8) = *rhs2 {
                                 if let Expr::Identifier(var, sub) = *lhs2 {
                                     if let Expr::Nothing = *sub {
-                                        let v = self.compiler_state.get_variable(var.as_str());
+                                        let v = self.variable_or_error(var.as_str(), pos)?;
                                         if v.var_type == VariableType::CharPtr && v.var_const {
                                             if self.acc_in_use {
                                                 self.sasm(PHA)?;
